@@ -8,7 +8,7 @@ import re
 
 import vplib as L
 
-PURITY_FORBIDDEN = [r"\bstatic\s+(mut\s+)?[A-Z_]+\s*:", r"\bthread_local!", r"\bCell<", r"\bRefCell<", r"\bUnsafeCell<", r"\bMutex<",
+PURITY_FORBIDDEN = [r"\bthread_local!", r"\bCell<", r"\bRefCell<", r"\bUnsafeCell<", r"\bMutex<",
                     r"\bRwLock<", r"\bAtomic[A-Z]\w*", r"\bOnceCell\b", r"\bOnceLock\b", r"\bLazyLock\b", r"\bLazyCell\b", r"\blazy_static!",
                     r"\bunsafe\b", r"\bOnce\b", r"\bRc<", r"\bstatic\s+mut\b"]
 
